@@ -6,8 +6,11 @@ import (
 	"context"
 	"fmt"
 	"os"
+	"runtime"
 	"sort"
 	"strings"
+	"sync"
+	"sync/atomic"
 	"testing"
 
 	"github.com/spikeekips/mitum/base"
@@ -580,11 +583,6 @@ func (x *c22Runner) apply(ev string) []c22Vio {
 	return vios
 }
 
-type c22State struct {
-	path []string
-	mine bool // statistics / violations of expansions of this state belong to this shard
-}
-
 func TestVerifC22(t *testing.T) {
 	r := vlib.Start("C22")
 	defer r.Finish()
@@ -596,7 +594,9 @@ func TestVerifC22(t *testing.T) {
 		fmt.Sscanf(v, "%d", &depth)
 	}
 
-	const sharedLevels = 3 // levels expanded identically by every shard; deeper frontier is partitioned
+	if _, replaying := r.Replaying(); replaying {
+		depth = 64 // only prefixes of the recorded history are expanded (WantPrefix); it may come from the thorough tier
+	}
 
 	r.Set("depth", depth)
 	r.Set("alphabet", env.evs)
@@ -609,88 +609,103 @@ func TestVerifC22(t *testing.T) {
 	r.Assume("the 'added at' nanosecond clock (util/localtime) is strictly increasing between two SetOperation calls; the harness spins until it is and verifies it from the stored ordered key")
 	r.Assume("leveldb in-memory storage behaves like the on-disk one for single-process sequential use")
 
+	if sh, nsh := r.Shard(); nsh > 1 && sh > 0 {
+		// the search is parallel inside one process (global state dedup needs shared memory);
+		// with several shards configured only shard 0 works
+		r.Outcome("idle-shard")
+
+		return
+	}
+
 	seen := map[string]bool{}
 	canon := func(x *c22Runner) string { return env.snapshot(x.db).key() + "#" + x.m.key() }
 
 	// run one history on a fresh pool; the oracle is checked on the last event only
 	// (every proper prefix was checked when it was the last event of a shorter history)
-	run := func(path []string) (key string, vios []c22Vio, obs string) {
+	run := func(path []string) (res c22Result) {
 		x := env.newRunner()
 		defer x.close()
 
 		for k, ev := range path {
 			x.check = k == len(path)-1
-			vios = x.apply(ev)
+			res.vios = x.apply(ev)
 		}
 
-		return canon(x), vios, x.lastObs
+		res.key, res.obs = canon(x), x.lastObs
+
+		return res
 	}
 
-	root := c22State{path: nil, mine: r.Mine(0)}
 	{
-		x := env.newRunner()
-		k := canon(x)
-		x.close()
+		k := run(nil).key
 		seen[k] = true
-
-		if root.mine {
-			r.State(k)
-		}
+		r.State(k)
 	}
 
-	frontier := []c22State{root}
-	var maxdepth int
+	_, replaying := r.Replaying()
+	frontier := [][]string{nil}
+
+	// Level-synchronous BFS. The histories of one chunk run in parallel (each on its own
+	// fresh pool); their results are merged sequentially in (state, event) order, so the
+	// outcome is exactly that of a sequential BFS and independent of scheduling.
+	const chunkStates = 256
 
 levels:
 	for level := 0; level < depth; level++ {
-		var next []c22State
+		var next [][]string
 
-		for si, st := range frontier {
-			// partition: shared levels are expanded by everybody (to obtain the same
-			// frontier) but accounted only by the owner; deeper states are expanded by the owner only
-			if level >= sharedLevels && !st.mine {
-				continue
+		for c0 := 0; c0 < len(frontier); c0 += chunkStates {
+			c1 := c0 + chunkStates
+			if c1 > len(frontier) {
+				c1 = len(frontier)
 			}
 
 			if r.Expired() {
-				r.Cap(fmt.Sprintf("deadline at level %d, state %d/%d", level, si, len(frontier)))
+				r.Cap(fmt.Sprintf("deadline at level %d, state %d/%d", level, c0, len(frontier)))
 
 				break levels
 			}
 
-			for _, ev := range env.evs {
-				path := append(append([]string{}, st.path...), ev)
-				id := strings.Join(path, "/")
+			type job struct {
+				path []string
+				id   string
+			}
 
-				if !r.WantPrefix(id) {
-					continue
+			var jobs []job
+
+			for _, st := range frontier[c0:c1] {
+				for _, ev := range env.evs {
+					path := append(append([]string{}, st...), ev)
+					id := strings.Join(path, "/")
+
+					if !r.WantPrefix(id) {
+						continue
+					}
+
+					jobs = append(jobs, job{path, id})
 				}
+			}
 
-				key, vios, obs := run(path)
+			results := make([]c22Result, len(jobs))
+			c22Parallel(len(jobs), func(i int) { results[i] = run(jobs[i].path) })
 
-				account := st.mine
-				if _, replaying := r.Replaying(); replaying {
-					account = r.Want(id) // one shard; only the recorded case reports
-				}
+			for i, j := range jobs {
+				res, ev := results[i], j.path[len(j.path)-1]
 
-				if account {
+				if !replaying || r.Want(j.id) { // in a replay only the recorded case reports
 					r.Transition()
 					r.Trace()
 					r.Eval()
-					r.Outcome(obs)
-					r.Max("max_depth", int64(len(path)))
+					r.Outcome(res.obs)
+					r.Max("max_depth", int64(len(j.path)))
 
-					if len(path) > maxdepth {
-						maxdepth = len(path)
+					if ev[0] == 'Q' && c22Nontrivial(env, j.path[:len(j.path)-1], ev) {
+						r.Nontrivial(j.id)
 					}
 
-					if ev[0] == 'Q' && c22Nontrivial(env, st.path, ev) {
-						r.Nontrivial(id)
-					}
-
-					for _, v := range vios {
+					for _, v := range res.vios {
 						r.Outcome("violation:" + fmt.Sprint(v.sig["kind"]))
-						r.Violation(id, v.sig, v.detail, map[string]any{"events": path})
+						r.Violation(j.id, v.sig, v.detail, map[string]any{"events": j.path})
 					}
 				}
 
@@ -699,44 +714,59 @@ levels:
 				// result, and the pool's leveldb records stay well defined (also after a
 				// recovered panic), so the successor is an ordinary state.
 
-				if seen[key] {
+				if seen[res.key] {
 					continue
 				}
 
-				seen[key] = true
+				seen[res.key] = true
 
-				child := c22State{path: path}
-				if level+1 <= sharedLevels {
-					// ownership of shared-level states is decided by their discovery order (identical in every shard)
-					child.mine = r.Mine(len(seen))
-				} else {
-					child.mine = st.mine
+				if r.State(res.key) && len(j.path) >= 2 && len(j.path) <= 3 {
+					r.Sample(map[string]any{"history": j.id, "state": res.key, "last_observation": res.obs})
 				}
 
-				if child.mine {
-					if r.State(key) && len(path) >= 2 && len(path) <= 3 {
-						r.Sample(map[string]any{"history": id, "state": key, "last_observation": obs})
-					}
-				}
-
-				next = append(next, child)
+				next = append(next, j.path)
 			}
 		}
 
 		frontier = next
-		r.Add(fmt.Sprintf("new_states_at_depth_%d", level+1), int64(c22CountMine(frontier)))
+		r.Add(fmt.Sprintf("new_states_at_depth_%d", level+1), int64(len(frontier)))
 	}
 }
 
-func c22CountMine(f []c22State) int {
-	var n int
-	for i := range f {
-		if f[i].mine {
-			n++
-		}
+type c22Result struct {
+	key  string
+	vios []c22Vio
+	obs  string
+}
+
+// c22Parallel runs f(0..n-1) on GOMAXPROCS workers.
+func c22Parallel(n int, f func(int)) {
+	w := runtime.GOMAXPROCS(0)
+	if w > n {
+		w = n
 	}
 
-	return n
+	var wg sync.WaitGroup
+	next := int64(-1)
+
+	for k := 0; k < w; k++ {
+		wg.Add(1)
+
+		go func() {
+			defer wg.Done()
+
+			for {
+				i := int(atomic.AddInt64(&next, 1))
+				if i >= n {
+					return
+				}
+
+				f(i)
+			}
+		}()
+	}
+
+	wg.Wait()
 }
 
 // c22Nontrivial: the history before the query added two operations of one
